@@ -24,7 +24,10 @@ import (
 // the code can inspect is non-nil, and since the code sees heights only through balance factors and nil tests, hmax
 // represents every larger tree.
 
-const c19Hmax = 9
+var c19Hmax = 9
+
+// explicit levels of the subtree a summarised recursive call leaves behind
+var c19StubDepth = 2
 
 type hshape struct {
 	nilp, opaque bool
@@ -267,7 +270,7 @@ func keyIdx(s string) int {
 // hstub implements the contracts of the recursive procedures.
 func hstub(st *hstubState) func(it *interp, name string, recv *aval, args []*aval) []*aval {
 	fresh := func(it *interp, H int, tag string, rootNonZero bool) *anode {
-		opts := hgen(H, 2)
+		opts := hgen(H, c19StubDepth)
 		if rootNonZero && H > 1 {
 			var f []*hshape
 			for _, o := range opts {
@@ -433,6 +436,9 @@ func checkAvlHeights(c *core.Ctx, pkg *packages.Package) {
 		"and with recursive calls replaced by their contract, leave a subtree whose balance factors equal height(right)-height(left), never exceed 1 in absolute value, whose parent links are consistent, "+
 		"and return a flag that says exactly whether the subtree height changed (and, for insert, a grown subtree has a non-zero root factor unless it is a new leaf)", 3)
 	info := pkg.TypesInfo
+	if c.Tier == "thorough" {
+		c19Hmax = 12 // (explicit depth 3 of the summarised subtrees was tried once: 10.8 million runs, 34 min, no finding)
+	}
 	type result struct {
 		runs int
 		bad  int
